@@ -168,7 +168,7 @@ structure Inv (s : St) : Prop where
   shared : s.sourceSubscription = s.subject
   closed : ∀ i, i < s.nsubs → (s.subs i).status ≠ 0 → SubClosed (s.subs i)
   stale : ∀ g, g < s.ngens → s.subject ≠ some g → GenStale (s.gens g)
-  count : s.refCount = (openSubs s).length + s.panics
+  count : s.refCount = (openSubs s).length
   idle : s.subject = none → s.flagE = false ∧ s.flagC = false ∧ openSubs s = []
   cur : ∀ g, s.subject = some g → g < s.ngens ∧ (GenActive s g ∨ GenLatched s g)
 
@@ -186,7 +186,6 @@ structure Sim (s s' : St) : Prop where
   flagC : s'.flagC = s.flagC
   ngens : s'.ngens = s.ngens
   nsubs : s'.nsubs = s.nsubs
-  panics : s'.panics = s.panics
   status : ∀ k, (s'.subs k).status = (s.subs k).status
   done : ∀ k, (s'.subs k).done = (s.subs k).done
   delFin : ∀ k, (s'.subs k).delFin = (s.subs k).delFin
@@ -217,7 +216,7 @@ theorem Sim.trans {a b c : St} (h1 : Sim a b) (h2 : Sim b c) : Sim a c := by
     | exact h2.refCount.trans h1.refCount | exact h2.subject.trans h1.subject
     | exact h2.sourceSubscription.trans h1.sourceSubscription | exact h2.flagE.trans h1.flagE
     | exact h2.flagC.trans h1.flagC | exact h2.ngens.trans h1.ngens | exact h2.nsubs.trans h1.nsubs
-    | exact h2.panics.trans h1.panics
+
 
 theorem Sim.openSubs {s s' : St} (h : Sim s s') : openSubs s' = openSubs s :=
   openSubs_congr h.nsubs (fun i _ => by rw [h.status i])
@@ -283,7 +282,7 @@ theorem Inv.sim {s s' : St} (hi : Inv s) (h : Sim s s') : Inv s' where
   shared := by rw [h.sourceSubscription, h.subject]; exact hi.shared
   closed := fun i hlt hs => (hi.closed i (by rw [← h.nsubs]; exact hlt) (by rw [← h.status]; exact hs)).sim h
   stale := fun g hg hne => (hi.stale g (by rw [← h.ngens]; exact hg) (by rw [← h.subject]; exact hne)).sim h
-  count := by rw [h.refCount, h.openSubs, h.panics]; exact hi.count
+  count := by rw [h.refCount, h.openSubs]; exact hi.count
   idle := fun hn => by
     rw [h.flagE, h.flagC, h.openSubs]
     exact hi.idle (by rw [← h.subject]; exact hn)
